@@ -11,7 +11,8 @@ CHECKS["C06"] = dict(
           "applied twice; CmdCount = number applied; applied sequences of honest replicas are prefix-related. (2) in-package "
           "ClientIO histories (Exec/Abort batches with duplicates across batches, aborted-then-executed and executed-then-"
           "aborted commands, waiting clients registered the way ExecCommand does): each waiting client gets at most one outcome, "
-          "success only after the command was applied. Non-trivial = a command occurs in two committed blocks, or was aborted and "
+          "success only after the command was applied; TestC06ExecCommandRPC does the same through the real RPC path (gorums client "
+          "-> ClientIO.ExecCommand on 127.0.0.1, a few dozen histories per run). Non-trivial = a command occurs in two committed blocks, or was aborted and "
           "executed (sim) / a waiting command meets a duplicate or an abort (ClientIO); distinct = config+schedule / history."),
-    assumptions=["the simulator edges are trusted", "the gorums transport of ExecCommand is not exercised (the handler is called directly)"],
+    assumptions=["the simulator edges are trusted", "the RPC variant waits for request arrival with a time guard (inconclusive, never a violation, if it expires)"],
 )
